@@ -96,8 +96,7 @@ func (pq *pqList) delete(id interface{}, expireAt time.Time) bool {
 	if !ok {
 		return false
 	}
-	bucket.delete(id, expireAt)
-	return true
+	return bucket.delete(id, expireAt)
 }
 
 func (pq *pqList) Update(id interface{}, old time.Time, new time.Time) {
